@@ -51,6 +51,9 @@ func catalogueReplay(key string, data []byte, workdir, repo string) *ReplayResul
 	if !ok {
 		return res
 	}
+	if ent.Wrap == "marshal" {
+		return marshalReplay(ent, data, workdir, repo)
+	}
 	payload := data
 	switch ent.Wrap {
 	case "mapentry":
@@ -122,6 +125,61 @@ func catalogueReplay(key string, data []byte, workdir, repo string) *ReplayResul
 		res.Detail = "Unmarshal of the model's bytes returned normally for every catalogue target"
 	default:
 		res.How = "not-replayable"
+		res.Detail = "catalogue test did not run: " + firstLines(raw, 3)
+	}
+	return res
+}
+
+// marshalReplay calls the real Marshal with the model's destination buffer and
+// each catalogue value expression and checks that the buffer's bytes are kept
+// as a prefix of the result.
+func marshalReplay(ent catEntry, data []byte, workdir, repo string) *ReplayResult {
+	res := &ReplayResult{How: "not-replayable"}
+	var b strings.Builder
+	b.WriteString("package plenc\n\nimport (\n\tpvbytes \"bytes\"\n\tpvfmt \"fmt\"\n\t\"testing\"\n\t\"time\"\n)\n\nvar _ time.Time\n\n")
+	b.WriteString(theCatalogue.Types + "\n\n")
+	b.WriteString("func TestPlencvcReplay(t *testing.T) {\n\tdata := " + goBytes(data) + "\n")
+	for _, tgt := range ent.Targets {
+		b.WriteString(fmt.Sprintf("\tfunc() {\n\t\tdefer func() {\n\t\t\tif r := recover(); r != nil {\n\t\t\t\tpvfmt.Println(\"REPLAY-PANIC:\", %q, r)\n\t\t\t}\n\t\t}()\n", tgt))
+		b.WriteString("\t\tbuf := make([]byte, len(data), len(data)+64)\n\t\tcopy(buf, data)\n")
+		b.WriteString(fmt.Sprintf("\t\tout, err := Marshal(buf, %s)\n", tgt))
+		b.WriteString(fmt.Sprintf("\t\tif err == nil && !pvbytes.HasPrefix(out, data) {\n\t\t\tpvfmt.Printf(\"REPLAY-PREFIX-LOST: Marshal(%%x, %%s) = %%x\\n\", data, %q, out)\n\t\t}\n", tgt))
+		b.WriteString("\t\tpvfmt.Println(\"REPLAY-DONE\", err)\n\t}()\n")
+	}
+	b.WriteString("}\n")
+	goTest := b.String()
+	testFile := filepath.Join(workdir, "plencvc_cat_test.go")
+	os.WriteFile(testFile, []byte(goTest), 0o644)
+	ov := map[string]map[string]string{"Replace": {filepath.Join(repo, "plencvc_cat_test.go"): testFile}}
+	ovb, _ := json.Marshal(ov)
+	ovFile := filepath.Join(workdir, "overlay_cat.json")
+	os.WriteFile(ovFile, ovb, 0o644)
+	ctx, cancel := context.WithTimeout(context.Background(), 120*time.Second)
+	defer cancel()
+	sh := fmt.Sprintf("ulimit -v 8000000; cd %s && exec go test -overlay %s -vet=off -count=1 -v -timeout 20s -run '^TestPlencvcReplay$' .", repo, ovFile)
+	cmd := exec.CommandContext(ctx, "sh", "-c", sh)
+	cmd.Env = append(os.Environ(), "GOFLAGS=-mod=mod", "GOPROXY=off", "GOSUMDB=off", "GOTOOLCHAIN=local")
+	var ob bytes.Buffer
+	cmd.Stdout = &ob
+	cmd.Stderr = &ob
+	cmd.Run()
+	raw := ob.String()
+	res.GoTest = goTest
+	res.Output = tail(raw, 2500)
+	res.Inputs = map[string]string{"data": fmt.Sprintf("hex:%x", data)}
+	switch {
+	case strings.Contains(raw, "REPLAY-PREFIX-LOST:"):
+		res.Reproduced = true
+		res.How = "buffer-prefix-not-preserved"
+		res.Detail = firstMatch(raw, "REPLAY-PREFIX-LOST:")
+	case strings.Contains(raw, "REPLAY-PANIC:"):
+		res.Reproduced = true
+		res.How = "panic"
+		res.Detail = firstMatch(raw, "REPLAY-PANIC:")
+	case strings.Contains(raw, "REPLAY-DONE"):
+		res.How = "not-reproduced"
+		res.Detail = "Marshal kept the buffer prefix for every catalogue value"
+	default:
 		res.Detail = "catalogue test did not run: " + firstLines(raw, 3)
 	}
 	return res
